@@ -8,13 +8,20 @@ use crate::stmt::*;
 use crate::*;
 use sea_query::Value;
 
-pub struct X { pub b: B }
+pub struct X { pub b: B, /// when collecting: the values the statement binds, in the order the dialect's grammar meets them
+    pub bound: std::cell::RefCell<Option<Vec<String>>> }
 
-pub fn render(b: B, q: &Query) -> String { X { b }.q(q) }
-pub fn cond_sql(b: B, c: &Cond) -> String { X { b }.cond(c) }
-pub fn ex_sql(b: B, e: &Ex) -> String { X { b }.ex(e) }
+pub fn render(b: B, q: &Query) -> String { X::new(b).q(q) }
+/// the reference rendering together with the values a parameterised rendering has to bind, in order (tags as `stmt::value_tag`)
+pub fn render_bound(b: B, q: &Query) -> (String, Vec<String>) { let x = X { b, bound: std::cell::RefCell::new(Some(Vec::new())) }; let s = x.q(q); let v = x.bound.borrow_mut().take().unwrap_or_default(); (s, v) }
+pub fn cond_sql(b: B, c: &Cond) -> String { X::new(b).cond(c) }
+pub fn ex_sql(b: B, e: &Ex) -> String { X::new(b).ex(e) }
 
 impl X {
+    pub fn new(b: B) -> Self { X { b, bound: std::cell::RefCell::new(None) } }
+    /// a value that is bound as a parameter (not a constant written into the text)
+    fn bind(&self, v: &Val) -> String { if let Some(l) = self.bound.borrow_mut().as_mut() { l.push(crate::stmt::value_tag(&v.real)); } self.lit(v) }
+    fn bind_raw(&self, v: Value) { if let Some(l) = self.bound.borrow_mut().as_mut() { l.push(crate::stmt::value_tag(&v)); } }
     fn qi(&self, s: &str) -> String { if self.b == B::Mysql { format!("`{}`", s.replace('`', "``")) } else { format!("\"{}\"", s.replace('"', "\"\"")) } }
     pub fn lit(&self, v: &Val) -> String {
         match &v.v {
@@ -47,15 +54,15 @@ impl X {
     fn exprs(&self, es: &[Ex]) -> String { es.iter().map(|e| self.ex(e)).collect::<Vec<_>>().join(", ") }
     pub fn ex(&self, e: &Ex) -> String {
         match e {
-            Ex::Col(c) => self.col(c), Ex::Val(v) | Ex::Const(v) => self.lit(v),
+            Ex::Col(c) => self.col(c), Ex::Val(v) => self.bind(v), Ex::Const(v) => self.lit(v),
             Ex::Tuple(es) => format!("({})", self.exprs(es)),
-            Ex::Vals(vs) => format!("({})", vs.iter().map(|v| self.lit(v)).collect::<Vec<_>>().join(", ")),
+            Ex::Vals(vs) => format!("({})", vs.iter().map(|v| self.bind(v)).collect::<Vec<_>>().join(", ")),
             Ex::Not(x) => format!("(NOT {})", self.ex(x)),
             Ex::Func(Fun::Std(11), _, a) => match &a[0] { Ex::Bin(x, _, t) => format!("CAST({} AS {}{})", self.ex(x), if let Ex::Cust(t) = &**t { t.clone() } else { "?".into() }, a[1..].iter().map(|x| format!(", {}", self.ex(x))).collect::<String>()), _ => "?cast?".into() },
             Ex::Func(f, d, a) => format!("{}({}{})", self.fname(f), if *d { "DISTINCT " } else { "" }, self.exprs(a)),
             Ex::Bin(l, o, r) => match (o, &**r) {
-                (Op::Std(6), Ex::Tuple(t)) if t.is_empty() => "(1 = 2)".into(),
-                (Op::Std(7), Ex::Tuple(t)) if t.is_empty() => "(1 = 1)".into(),
+                (Op::Std(6), Ex::Tuple(t)) if t.is_empty() => { self.bind_raw(Value::Int(Some(1))); self.bind_raw(Value::Int(Some(2))); "(1 = 2)".into() }
+                (Op::Std(7), Ex::Tuple(t)) if t.is_empty() => { self.bind_raw(Value::Int(Some(1))); self.bind_raw(Value::Int(Some(1))); "(1 = 1)".into() }
                 (Op::Std(8 | 9), Ex::Bin(lo, Op::Std(0), hi)) => format!("({} {} {} AND {})", self.ex(l), self.op(o), self.ex(lo), self.ex(hi)),
                 (Op::Std(2 | 3 | 30 | 31), Ex::Bin(p, Op::Std(26), c)) => format!("({} {} {} ESCAPE {})", self.ex(l), self.op(o), self.ex(p), self.ex(c)),
                 _ => format!("({} {} {})", self.ex(l), self.op(o), self.ex(r)),
@@ -92,7 +99,7 @@ impl X {
         }
     }
     fn orders(&self, kw: &str, os: &[OrderItem]) -> String { if os.is_empty() { String::new() } else { format!(" {kw} {}", os.iter().map(|o| self.order(o)).collect::<Vec<_>>().join(", ")) } }
-    fn bound(&self, b: &Bound) -> String { match b { Bound::UP => "UNBOUNDED PRECEDING".into(), Bound::P(n) => format!("{n} PRECEDING"), Bound::CR => "CURRENT ROW".into(), Bound::F(n) => format!("{n} FOLLOWING"), Bound::UF => "UNBOUNDED FOLLOWING".into() } }
+    fn bound(&self, b: &Bound) -> String { match b { Bound::UP => "UNBOUNDED PRECEDING".into(), Bound::P(n) => { self.bind_raw(Value::Unsigned(Some(*n))); format!("{n} PRECEDING") }, Bound::CR => "CURRENT ROW".into(), Bound::F(n) => { self.bind_raw(Value::Unsigned(Some(*n))); format!("{n} FOLLOWING") }, Bound::UF => "UNBOUNDED FOLLOWING".into() } }
     fn window(&self, w: &Window) -> String {
         let mut parts = Vec::new();
         if !w.partition.is_empty() { parts.push(format!("PARTITION BY {}", self.exprs(&w.partition))); }
@@ -105,7 +112,7 @@ impl X {
         match t {
             TRef::Named(n) => self.tname(n),
             TRef::Sub(s, a) => format!("({}) AS {}", self.sel(s), self.qi(a)),
-            TRef::Vals(rows, a) => format!("(VALUES {}) AS {}", rows.iter().map(|r| format!("{}({})", if self.b == B::Mysql { "ROW" } else { "" }, r.iter().map(|v| self.lit(v)).collect::<Vec<_>>().join(", "))).collect::<Vec<_>>().join(", "), self.qi(a)),
+            TRef::Vals(rows, a) => format!("(VALUES {}) AS {}", rows.iter().map(|r| format!("{}({})", if self.b == B::Mysql { "ROW" } else { "" }, r.iter().map(|v| self.bind(v)).collect::<Vec<_>>().join(", "))).collect::<Vec<_>>().join(", "), self.qi(a)),
             TRef::Func(f, d, args, a) => format!("{}({}{}) AS {}", self.fname(f), if *d { "DISTINCT " } else { "" }, self.exprs(args), self.qi(a)),
         }
     }
@@ -137,8 +144,8 @@ impl X {
         if let Some((n, w)) = &s.window { o += &format!(" WINDOW {} AS {}", self.qi(n), self.window(w)); }
         for (t, u) in &s.unions { o += [" INTERSECT ", " UNION ", " EXCEPT ", " UNION ALL "][*t as usize]; if self.b == B::Sqlite { o += &self.sel(u); } else { o += &format!("({})", self.sel(u)); } }
         o += &self.orders("ORDER BY", &s.orders);
-        if let Some(n) = s.limit { o += &format!(" LIMIT {n}"); }
-        if let Some(n) = s.offset { o += &format!(" OFFSET {n}"); }
+        if let Some(n) = s.limit { self.bind_raw(Value::BigUnsigned(Some(n))); o += &format!(" LIMIT {n}"); }
+        if let Some(n) = s.offset { self.bind_raw(Value::BigUnsigned(Some(n))); o += &format!(" OFFSET {n}"); }
         if let Some(l) = &s.lock { if self.b != B::Sqlite {
             o += &format!(" FOR {}", ["UPDATE", "NO KEY UPDATE", "SHARE", "KEY SHARE"][l.ty as usize]);
             if !l.tables.is_empty() { o += &format!(" OF {}", l.tables.iter().map(|t| self.tname(t)).collect::<Vec<_>>().join(", ")); }
@@ -202,7 +209,7 @@ impl X {
                 if !mysql_join { o += &self.holder("WHERE", &u.wher); }
                 // SQLite: RETURNING precedes ORDER BY / LIMIT
                 o += &self.ret(&u.returning); o += &self.orders("ORDER BY", &u.orders);
-                if let Some(n) = u.limit { o += &format!(" LIMIT {n}"); }
+                if let Some(n) = u.limit { self.bind_raw(Value::BigUnsigned(Some(n))); o += &format!(" LIMIT {n}"); }
                 o
             }
             Query::Del(d) => {
@@ -210,7 +217,7 @@ impl X {
                 if let Some(w) = &d.with { o += &self.with(w); }
                 o += "DELETE"; if let Some(t) = &d.table { o += &format!(" FROM {}", self.tref(t)); }
                 o += &self.holder("WHERE", &d.wher); o += &self.ret(&d.returning); o += &self.orders("ORDER BY", &d.orders);
-                if let Some(n) = d.limit { o += &format!(" LIMIT {n}"); }
+                if let Some(n) = d.limit { self.bind_raw(Value::BigUnsigned(Some(n))); o += &format!(" LIMIT {n}"); }
                 o
             }
         }
